@@ -29,7 +29,8 @@ BUILTIN = {"-h", "--help", "-h,--help", "--help-arg", "--help-arg-full", "--prin
            "--help-long", "--list-arg-vars", "--endvalues", "--list-arg-groups"}
 KINDS = ["b", "i", "i", "s", "s", "d", "vi", "vs", "oi", "l"]
 LONGPOOL = ["in", "input", "output-file", "verbose-level", "name", "number-of-items", "xy", "max-size", "colour", "mode",
-            "a-rather-long-argument-name-for-testing", "an-extremely-long-argument-name-that-never-fits-in-a-column", "list", "index", "path-to-the-file"]
+            "a-rather-long-argument-name-for-testing", "an-extremely-long-argument-name-that-never-fits-in-a-column", "list", "index", "path-to-the-file"] + \
+           ["k%d-%s" % (n, ("boundary-of-the-key-column-" * 3)[:n - 4]) for n in (34, 35, 36, 37, 38, 39)]   # key texts of 39..41 characters (MaxNameLength = 40)
 
 
 def cases(tier):
